@@ -28,8 +28,13 @@ ASSUMPTIONS = ["status code in 100..999", "developer-supplied header names are A
 EXHAUSTIVE = {"quick": False, "thorough": False}
 
 HDR_SETS = [[], [["X-Custom", "1"]], [["Content-Type", "application/x-custom"], ["x-a", "é"]],
-            [["content-length", "5"]], [["Cache-Control", "max-age=3"], ["cache-control", "private"]]]
-COOKIE_SETS = [[], [["sid", "abc", {}]], [["a", "x y", {"max_age": 10}], ["b", "é;", {"path": "/p", "secure": True}]]]
+            [["content-length", "5"]], [["Cache-Control", "max-age=3"], ["cache-control", "private"]],
+            # Latin-1 text whose bytes happen to be well-formed UTF-8 (UTF-8 text handed over the PEP 3333 way): must travel byte for byte
+            [["X-Title", "Cr\u00c3\u00a8me \u00ce\u00a9"]]]
+COOKIE_SETS = [[], [["sid", "abc", {}]], [["a", "x y", {"max_age": 10}], ["b", "é;", {"path": "/p", "secure": True}]],
+               # text the library must escape itself (C13): a line break at the very end, a CRLF followed by a header, NUL
+               # (rendered lines in ascending order: C20 compares header lists sorted and folds repeats in that order)
+               [["abc\n", "v", {}], ["k", "abc\n", {}]], [["k", "a\r\nSet-Cookie: x=y", {}], ["n", "\x00", {"max_age": 0}]]]
 STATUSES = [200, 201, 204, 299, 404, 500, 599, 999, 100]
 
 
@@ -105,7 +110,24 @@ def trace_len(recipe):
     return 8
 
 
+CTOR_ALPHA = ["a", "\r", "\n", "\x00", '"', ";", "\u00e9", "\u4e2d", "\x0b", ".bin"]
+
+
+def ctor_cases(tier):
+    """names for a file response: as download_name (mode 0) and as the name of the file itself (mode 1)"""
+    import itertools
+    for n in (1, 2, 3):
+        for t in itertools.product(CTOR_ALPHA, repeat=n):
+            name = "".join(t)
+            if n == 3 and tier == "quick" and not (set(t) & {"\r", "\n", "\x00"} and len(set(t)) == 3):
+                continue
+            yield "file-ctor", ["ctor", 0, name]
+            if "\x00" not in name and "/" not in name:
+                yield "file-ctor", ["ctor", 1, name]
+
+
 def cases(tier, rng):
+    yield from ctor_cases(tier)
     for r in file_recipes(rng, 0):
         yield "file-vanishes", [r, "vanish"]
     for r in recipes(tier, rng):
@@ -122,6 +144,9 @@ def search_cases(tier, rng, mism):
 
 
 def enc_case(case):
+    if case[0] == "ctor":
+        from urllib.parse import quote as _q
+        return [case[1], case[2], _q(case[2])]
     if len(case) == 2:
         return [resp.encode(case[0]), resp.phrase_of(200, 206, 400, 416), "vanish"]
     r, ca, sf, wc = case
@@ -151,7 +176,48 @@ def vanishing_response(recipe, iface):
     return r
 
 
+def impl_ctor(case):
+    """build a file response around the given name on both interfaces; run it; are the emitted header lines free
+    of CR, LF and NUL?"""
+    import os
+    _, mode, name = case
+    d = os.path.join(util.tmpdir(), "c05ctor")
+    os.makedirs(d, exist_ok=True)
+    path = os.path.join(d, "plain.dat" if mode == 0 else name)
+    try:
+        with open(path, "wb") as f:
+            f.write(b"0123456789")
+    except (OSError, ValueError, UnicodeEncodeError) as e:
+        return ["uncreatable", type(e).__name__]
+    outs = []
+    for iface in ("asgi", "wsgi"):
+        if iface == "wsgi":
+            import baize.wsgi.responses as M
+        else:
+            import baize.asgi.responses as M
+        try:
+            r = M.FileResponse(path, content_type="application/octet-stream", download_name=name if mode == 0 else None)
+        except ValueError:
+            outs.append(["refused", 0])
+            continue
+        if iface == "asgi":
+            evs, out = resp.trace_asgi(r, util.http_scope("GET", headers=[]))
+            hs = [[k, v] for k, v in evs[0][2]] if evs and evs[0][0] == "start" else None
+        else:
+            evs, out = resp.trace_wsgi(r, util.wsgi_environ("GET", headers=[]))
+            hs = [[k, v] for k, v in evs[0][2]] if evs and evs[0][0] == "start" else None
+        if hs is None:
+            outs.append(["no-start", out])
+        else:
+            outs.append(["built", 0 if any(c in (k + v) for k, v in hs for c in "\r\n\x00") else 1])
+    if outs[0] != outs[1]:
+        return ["differ", outs]
+    return outs[0]
+
+
 def impl(case):
+    if case[0] == "ctor":
+        return impl_ctor(case)
     if len(case) == 2:
         r = case[0]
         aevs, aout = resp.trace_asgi(vanishing_response(r, "asgi"),
@@ -203,6 +269,12 @@ def developer_dirty(r):
 def oracle(case, obs):
     if obs and obs[0] == "driver-exception":
         return ("driver-exception-" + str(obs[1]), str(obs))
+    if case[0] == "ctor":
+        if obs[0] == "built" and obs[1] == 0:
+            return ("file-header-ctl", "a file response named %r was built and emits a header with CR, LF or NUL" % (case[2],))
+        if obs[0] in ("differ", "no-start"):
+            return ("file-ctor-" + obs[0], "file response named %r: %r" % (case[2], obs))
+        return None
     if len(case) == 2:
         r, ca, sf, wc = case[0], None, 0, None     # a fault: judged as a prefix
     else:
@@ -267,6 +339,8 @@ def oracle(case, obs):
 
 
 def nontrivial(case, obs):
+    if case[0] == "ctor":
+        return any(c in case[2] for c in "\r\n\x00")
     if len(case) == 2:
         return True
     r, ca, sf, wc = case
@@ -274,6 +348,10 @@ def nontrivial(case, obs):
 
 
 def shrink(case):
+    if case[0] == "ctor":
+        for i in range(len(case[2])):
+            yield ["ctor", case[1], case[2][:i] + case[2][i + 1:]]
+        return
     if len(case) == 2:
         return
     r, ca, sf, wc = case
